@@ -506,7 +506,7 @@ func init() {
 		Assumptions: []string{"@webhook and @legacy_extra appear only in results named masked_*, whose values are masked and never routed on", "restarting does not consume clock ticks or UUIDs (otherwise byte comparison would be too strict; none observed)"},
 		Run:         run,
 		Replay:      replayFn,
-		Budget:      map[string]time.Duration{"quick": 4 * time.Minute, "thorough": 25 * time.Minute},
+		Budget:      map[string]time.Duration{"quick": 8 * time.Minute, "thorough": 30 * time.Minute},
 		Guards: func(r *mc.Result, tier string) []string {
 			var f []string
 			for _, fact := range []string{"ticket_opened", "webhook_called", "batch_ticket_refused", "flow_entered"} {
